@@ -426,7 +426,14 @@ def _wake(run, nid, tyme):
         if step["self"] and me not in arg:
             arg.append(me)
         if step["stranger"]:
-            # a doer that is not a member of that scheduler (never started spare, if any)
+            # a doer that is not a member of that scheduler: one that removed itself earlier and is still running under it
+            # (remove() goes by membership: it must leave that one alone), else a never started spare, if any
+            for i, o in sorted(run.objs.items()):
+                sti = run.st[i]
+                if sti.parent is sched and sti.entered > sti.exited and o not in cur and o not in arg and o is not me:
+                    arg.append(o)
+                    run.fault("remove_of_running_non_member")
+                    break
             for i in run.prog["spares"]:
                 if run.st[i].entered == 0 and run.st[i].parent is None and run.objs[i] not in arg:
                     arg.append(run.objs[i])
